@@ -19,12 +19,12 @@ from functools import partial
 
 import z3
 
-from vf.common import Plan, find_def, parse_repo_file
+from vf.common import Plan, Obligation, Outcome, DISCHARGED, REFUTED, find_def, parse_repo_file
 from vf.pyvc.engine import (World, T, Int, Bool, Label, LabelSort, RecT, TupleT, ListT, Rec, PyList, FuncRef, ClassInfo, fresh, Unsupp,
                             RaiseExc)
 from vf.pyvc.contract import FnContract, Case, obligations_for
 from vf.pyvc.interp import Interp
-from vf.pyvc.spec import And
+from vf.pyvc.spec import And, Implies
 
 NATIVE = "pennylane/concurrency/executors/native/"
 API, SERIAL, CONC, MULTI = NATIVE + "api.py", NATIVE + "serial.py", NATIVE + "conc_futures.py", NATIVE + "multiproc.py"
@@ -71,47 +71,61 @@ class Future:
 
 class ThreadPoolExecutor:
     def __init__(self, *args, **kwargs):
-        pass
+        self.closed = False
 
     def submit(self, fn, *args, **kwargs):
+        if self.closed:
+            raise RuntimeError("cannot schedule new futures after shutdown")
         return Future(fn(*args, **kwargs))
 
     def map(self, fn, *iterables, timeout=None, chunksize=1):
+        if self.closed:
+            raise RuntimeError("cannot schedule new futures after shutdown")
         return [fn(*t) for t in zip(*iterables)]
 
     def shutdown(self, wait=True):
-        pass
+        self.closed = True
 
 
 class ProcessPoolExecutor:
     def __init__(self, *args, **kwargs):
-        pass
+        self.closed = False
 
     def submit(self, fn, *args, **kwargs):
+        if self.closed:
+            raise RuntimeError("cannot schedule new futures after shutdown")
         return Future(fn(*args, **kwargs))
 
     def map(self, fn, *iterables, timeout=None, chunksize=1):
+        if self.closed:
+            raise RuntimeError("cannot schedule new futures after shutdown")
         return [fn(*t) for t in zip(*iterables)]
 
     def shutdown(self, wait=True):
-        pass
+        self.closed = True
 
 
 class Pool:
     def __init__(self, *args, **kwargs):
-        pass
+        self.closed = False
 
     def apply(self, func, args=(), kwds={}):
+        if self.closed:
+            raise ValueError("Pool not running")
         return func(*args, **kwds)
 
     def map(self, func, iterable, chunksize=None):
+        if self.closed:
+            raise ValueError("Pool not running")
         return [func(x) for x in iterable]
 
     def starmap(self, func, iterable, chunksize=None):
+        if self.closed:
+            raise ValueError("Pool not running")
         return [func(*x) for x in iterable]
 
     def close(self):
-        pass
+        self.closed = True
 
 
 class SpawnContext:
@@ -255,6 +269,7 @@ def build(tier, seed):
             classes[bname] = (b["file"], {})
         w = World(file, classes=classes, stubs={nm: (STUBS_SRC, {"value": Label} if nm == "Future" else {}) for nm in stub_names},
                   extra_builtins=xb)
+        w.strict_finally = True          # a `finally:` clause also runs when the body returns / raises (resource release paths)
 
         def b_partial(it, args, kw):
             f, pre = args[0], list(args[1:])
@@ -309,7 +324,8 @@ def build(tier, seed):
             r = Rec(w.classes[bname], {
                 "_cfg": Rec(w.classes["ExecBackendConfig"], dict(cfg)),
                 "_persist": fresh(ctx, Bool, "persist"), "_size": fresh(ctx, Int, "max_workers"),
-                "_persistent_backend": Rec(w.classes[b["backend"]], {}), "_inputs": {}})
+                "_persistent_backend": Rec(w.classes[b["backend"]], {} if b["backend"] == "StdLibBackend" else {"closed": False}),
+                "_inputs": {}})
             holder["self"] = r
             return r
 
@@ -349,14 +365,43 @@ def build(tier, seed):
     def native_method(method, pos, kwp):
         def call(mod, a):
             ex = a["self"]
+            persistent = bool(getattr(ex, "_persist", False))
             try:
-                return getattr(ex, method)(a["fn"], *[a[p] for p in pos], **{k: a[p] for k, p in kwp.items()})
+                res = getattr(ex, method)(a["fn"], *[a[p] for p in pos], **{k: a[p] for k, p in kwp.items()})
+                if persistent:
+                    # the multi-call reading: a persistent executor must still serve the next call
+                    try:
+                        ex._c65_followup = ex.map(nat_p1, ["z1", "z2"])
+                    except Exception as exc:  # pylint: disable=broad-except
+                        ex._c65_followup = f"{type(exc).__name__}: {exc}"
+                return res
             finally:
                 try:
                     ex.shutdown()
                 except Exception:  # pylint: disable=broad-except
                     pass
         return call
+
+    FOLLOWUP = [("F_p1", "z1"), ("F_p1", "z2")]
+
+    def backend_open(ex):
+        """symbolic: the persistent backend object has not been shut down (ghost flag of the pool stubs; the serial backend has no state)"""
+        be = ex.f.get("_persistent_backend")
+        return isinstance(be, Rec) and be.f.get("closed", False) is False
+
+    def frame(o, n):
+        """a call on a PERSISTENT executor leaves the executor persistent and its backend open (so the next call is served): the backend's
+        shutdown function may run only when not self._persist"""
+        if isinstance(n.self, Rec):
+            p0, p1 = o.self.f["_persist"], n.self.f["_persist"]
+            same_flag = (p0 is p1) or (isinstance(p0, z3.ExprRef) and isinstance(p1, z3.ExprRef) and p0.eq(p1)) or \
+                (isinstance(p0, bool) and isinstance(p1, bool) and p0 == p1)
+            return And(same_flag, Implies(p0, backend_open(n.self)) if isinstance(p0, z3.ExprRef) else ((not p0) or backend_open(n.self)))
+        fu = getattr(n.self, "_c65_followup", None)
+        return fu is None or fu == FOLLOWUP
+
+    def framed(ens):
+        return lambda o, r, n: And(ens(o, r, n), frame(o, n))
 
     # =====================================================================================================================
     # specifications (symbolic: terms of the uninterpreted function; native: the python builtins themselves)
@@ -453,7 +498,7 @@ def build(tier, seed):
                 params["kv"] = Label
                 kwp["k"] = "kv"
             cases.append(Case(f"{bname}-{shape_label(nm, withk, 'lens' + 'x'.join(map(str, lens)))}", params, kwargs_map=kwp,
-                              ensures=map_post(pos, kwp), size_bounded=True, native_gen=fix_model,
+                              ensures=framed(map_post(pos, kwp)), size_bounded=True, native_gen=fix_model,
                               native_call=native_method("map", pos, kwp)))
         contracts.append(FnContract(w, mqual, cases))
         # ---- starmap / submit: PyNativeExec's methods with this backend's configuration ----------------------------------------
@@ -468,7 +513,7 @@ def build(tier, seed):
                 params["kv"] = Label
                 kwp["k"] = "kv"
             # `args` is the real parameter name of the data sequence
-            cases.append(Case(f"{bname}-{shape_label(nm, withk, f'{n}tuples')}", params, kwargs_map=kwp, ensures=starmap_post(kwp),
+            cases.append(Case(f"{bname}-{shape_label(nm, withk, f'{n}tuples')}", params, kwargs_map=kwp, ensures=framed(starmap_post(kwp)),
                               size_bounded=True, native_gen=fix_model, native_call=native_method("starmap", ["data"], kwp)))
         contracts.append(FnContract(w2, "PyNativeExec.starmap", cases))
         cases = []
@@ -483,9 +528,98 @@ def build(tier, seed):
             if withk:
                 params["kv"] = Label
                 kwp["k"] = "kv"
-            cases.append(Case(f"{bname}-{shape_label(nm, withk, f'{ar}args')}", params, kwargs_map=kwp, ensures=submit_post(pos, kwp),
+            cases.append(Case(f"{bname}-{shape_label(nm, withk, f'{ar}args')}", params, kwargs_map=kwp, ensures=framed(submit_post(pos, kwp)),
                               size_bounded=True, native_gen=fix_model, native_call=native_method("submit", pos, kwp)))
         contracts.append(FnContract(w2, "PyNativeExec.submit", cases))
+
+    # ---- multi-call reading: histories of two calls on the SAME executor, and the life-cycle methods ------------------------------------
+    class Driver(FnContract):
+        """a two-call client `r1 = self.<m1>(...); r2 = self.<m2>(...)` (written here) whose calls execute the REAL method bodies"""
+
+        def __init__(self, world, qualname, cases, src):
+            super().__init__(world, qualname, cases)
+            self._src = src
+            self._node = None
+
+        def node(self):
+            if self._node is None:
+                self._node = ast.parse(self._src).body[0]
+            return self._node
+
+    def call_src(kind, fn_args):
+        return {"map": f"self.map(fn, {', '.join(fn_args)})", "starmap": f"self.starmap(fn, {fn_args[0]})",
+                "submit": f"self.submit(fn, {', '.join(fn_args)})"}[kind]
+
+    def expect(kind, o, names):
+        """(symbolic expected value, native expected value) of one call of fn p2 on the named parameters"""
+        if kind == "map":
+            return map_post(names, {}), None
+        if kind == "starmap":
+            return (lambda o_, r_, n_: list_eq(r_, [apply_fn("p2", list(t), {}) for t in items(getattr(o_, names[0]))]) if is_sym_call(o_)
+                    else r_ == list(itertools.starmap(o_.fn, getattr(o_, names[0])))), None
+        return submit_post(names, {}), None
+
+    HIST = [("map", "map"), ("map", "starmap"), ("starmap", "submit"), ("submit", "map"), ("starmap", "starmap")]
+    for bname, b in BACKENDS.items():
+        wd = make_world(API, bname)
+        wd.stub_realize = {bname: real_exec(bname)}
+        for k1, k2 in HIST:
+            params = {"self": exec_t(wd, bname), "fn": FN("p2")}
+            names = []
+            for idx, kind in enumerate((k1, k2)):
+                if kind == "map":
+                    params[f"c{idx}s0"], params[f"c{idx}s1"] = ListT(Label, 2), ListT(Label, 2)
+                    names.append([f"c{idx}s0", f"c{idx}s1"])
+                elif kind == "starmap":
+                    params[f"c{idx}d"] = ListT(TupleT(Label, Label), 2)
+                    names.append([f"c{idx}d"])
+                else:
+                    params[f"c{idx}a0"], params[f"c{idx}a1"] = Label, Label
+                    names.append([f"c{idx}a0", f"c{idx}a1"])
+            src = (f"def two_calls({', '.join(params)}):\n    r1 = {call_src(k1, names[0])}\n    r2 = {call_src(k2, names[1])}\n"
+                   "    return (r1, r2)\n")
+            e1, e2 = expect(k1, None, names[0])[0], expect(k2, None, names[1])[0]
+
+            def ens(o, r, n, e1=e1, e2=e2):
+                if not (isinstance(r, tuple) and len(r) == 2):
+                    return False
+                return And(e1(o, r[0], n), e2(o, r[1], n), frame(o, n))
+
+            def nat(mod, a, k1=k1, k2=k2, names=names):
+                ex = a["self"]
+                try:
+                    return (getattr(ex, k1)(a["fn"], *[a[p] for p in names[0]]), getattr(ex, k2)(a["fn"], *[a[p] for p in names[1]]))
+                finally:
+                    try:
+                        ex.shutdown()
+                    except Exception:  # pylint: disable=broad-except
+                        pass
+            contracts.append(Driver(wd, "PyNativeExec." + k2, [
+                Case(f"{bname}-history-{k1}-then-{k2}", params, ensures=ens, size_bounded=True, native_gen=fix_model, native_call=nat)], src))
+
+        # life cycle: shutdown() closes a persistent backend and only that; leaving a `with` block never closes a persistent backend
+        def shut_ens(o, r, n):
+            if not isinstance(n.self, Rec):
+                return True
+            p0 = o.self.f["_persist"]
+            be0 = n.self.f.get("__be0")
+            closed = isinstance(be0, Rec) and (be0.f.get("closed", True) is True or "closed" not in be0.f)
+            after = n.self.f["_persist"] is False and n.self.f["_persistent_backend"] is None and closed
+            untouched = (n.self.f["_persist"] is p0) and backend_open(n.self)
+            return And(Implies(p0, after), Implies(z3.Not(p0), untouched))
+
+        def keep_backend(ctx, name, wd=wd, bname=bname):
+            r = exec_t(wd, bname).args[0](ctx, name)
+            r.f["__be0"] = r.f["_persistent_backend"]           # ghost: the backend object the executor started with
+            return r
+        contracts.append(FnContract(wd, "PyNativeExec.shutdown", [
+            Case(f"{bname}-closes-exactly-a-persistent-backend", {"self": T("build", keep_backend, gen=lambda rng: None)}, ensures=shut_ens,
+                 size_bounded=True)]))
+        wb = make_world(BASE, bname)
+        contracts.append(FnContract(wb, "RemoteExec.__exit__", [
+            Case(f"{bname}-leaving-a-with-block-keeps-a-persistent-backend-open",
+                 {"self": exec_t(wb, bname), "exception_type": T("const", None), "exception_value": T("const", None), "traceback": T("const", None)},
+                 ensures=lambda o, r, n: frame(o, n) if isinstance(n.self, Rec) else True, size_bounded=True)]))
 
     # ---- StdLibBackend (the serial backend object) verified from its body ---------------------------------------------------------
     ws = World(SERIAL, classes={"StdLibBackend": {}}, extra_builtins={})
@@ -553,6 +687,52 @@ def build(tier, seed):
         for ob in obligations_for("C65", fc, tier, finding=f23(fc)):
             plan.add(ob)
         plan.fn_under_contract(fc.world.file, fc.qualname)
+    def history_standin(bname, persist):
+        """bounded native stand-in: map, map, starmap, submit on ONE real executor, compared with the builtins after every call"""
+        def run():
+            import importlib
+            import multiprocessing
+            multiprocessing.current_process()._config["daemon"] = False          # replay harness: real pools from a checker worker
+            mod = importlib.import_module(BACKENDS[bname]["file"][:-3].replace("/", "."))
+            ex = getattr(mod, bname)(max_workers=1 if bname == "SerialExec" else 2, persist=persist)
+            data, pairs = ["a", "b", "c"], [("a", "x"), ("b", "y")]
+            steps = [("map#1", lambda: ex.map(nat_p1, data), list(map(nat_p1, data))),
+                     ("map#2", lambda: ex.map(nat_p2, data, data[::-1]), list(map(nat_p2, data, data[::-1]))),
+                     ("starmap#3", lambda: ex.starmap(nat_p2, pairs), list(itertools.starmap(nat_p2, pairs))),
+                     ("submit#4", lambda: ex.submit(nat_p1k, "q", k="w"), nat_p1k("q", k="w")),
+                     ("map#5", lambda: ex.map(nat_p1, data[:1]), list(map(nat_p1, data[:1])))]
+            bad = []
+            try:
+                for label, call, want in steps:
+                    try:
+                        got = call()
+                    except Exception as exc:  # pylint: disable=broad-except
+                        got = f"{type(exc).__name__}: {exc}"
+                    if got != want:
+                        bad.append(dict(step=label, observed=repr(got)[:200], expected=repr(want)[:200]))
+            finally:
+                try:
+                    ex.shutdown()
+                except Exception:  # pylint: disable=broad-except
+                    pass
+            return bad
+
+        def replay(w=None):
+            bad = run()
+            return dict(confirmed=bool(bad), mismatches=bad, backend=bname, persist=persist)
+
+        def fn():
+            rp = replay()
+            if rp["confirmed"]:
+                return Outcome(REFUTED, "native-standin", f"{bname}(persist={persist}): {rp['mismatches'][0]}", witness=dict(backend=bname, persist=persist,
+                               sequence="map, map, starmap, submit, map"), replay=rp)
+            return Outcome(DISCHARGED, "native-standin(bounded: one 5-call history)", "every call matched the builtin")
+        return Obligation(f"C65/history:{bname}/persist-{persist}/five-calls-on-one-executor", "post", fn, bounded=True, replay=replay, timeout=300,
+                          func=(API, "PyNativeExec.map"), sample="map, map, starmap, submit, map on one real executor == builtins after every call")
+    for bname in BACKENDS:
+        for persist in (True, False):
+            plan.add(history_standin(bname, persist))
+
     for f, q in ((BASE, "RemoteExec._get_backend"), (BASE, "RemoteExec._submit_fn"), (BASE, "RemoteExec._map_fn"),
                  (SERIAL, "SerialExec._exec_backend"), (CONC, "ThreadPoolExec._exec_backend"), (CONC, "ProcPoolExec._exec_backend"),
                  (MULTI, "MPPoolExec._exec_backend"), (SERIAL, "SerialExec.__init__"), (CONC, "ThreadPoolExec.__init__"),
